@@ -128,6 +128,10 @@ func (fr *Frame) static(st *State, fn *ssa.Function, bindings []Val, args []Val,
 func (fr *Frame) inline(st *State, fn *ssa.Function, bindings []Val, args []Val) []Val {
 	u := fr.u
 	u.stats.inlined++
+	if u.Inlined == nil {
+		u.Inlined = map[string]bool{}
+	}
+	u.Inlined[FuncKey(fn)] = true
 	nf := &Frame{u: u, fn: fn, oblFn: fr.oblFn + ">" + fn.Name(), vals: map[ssa.Value]Val{}, parent: fr, root: fr.root, depth: fr.depth + 1,
 		cvars: map[string]Val{}, closures: fr.root.closures}
 	if fc, ok := u.P.CS.Funcs[FuncKey(fn)]; ok {
